@@ -187,4 +187,24 @@ theorem repo_defaults_admissible :
       ∧ 2 ≤ Gen.defaultNSigma ∧ Gen.defaultNpr ≤ Gen.defaultNSigma := by
   decide
 
+/-! ### the box as the source computes it (index arithmetic of `PixelRenderer.__init__`, regenerated on every run) -/
+
+/-- `int(N/2) ∓ os_pixel_size` along both axes: the source's box is the model's `[N/2 − os, N/2 + os)` for every image side
+(`int(·)`, `round(·)` and `//` keep their Python meaning in the translation, so a box placed with `round(x_mid)` or
+`round((N+1)/2) − 1` — off by one exactly when N ≡ 2 or 0 (mod 4) — does not pass) -/
+theorem repo_pixel_box (N0 N1 os : Nat) :
+    Gen.pix_x_os_lo N0 N1 os = ((N0 / 2 : Nat) : Int) - os ∧ Gen.pix_x_os_hi N0 N1 os = ((N0 / 2 : Nat) : Int) + os ∧
+    Gen.pix_y_os_lo N0 N1 os = ((N1 / 2 : Nat) : Int) - os ∧ Gen.pix_y_os_hi N0 N1 os = ((N1 / 2 : Nat) : Int) + os := by
+  have t0 : ∀ x : Int, 0 ≤ x → Int.tdiv x 2 = x / 2 := fun x hx => Int.tdiv_eq_ediv_of_nonneg hx
+  simp only [Gen.pix_x_os_lo, Gen.pix_x_os_hi, Gen.pix_y_os_lo, Gen.pix_y_os_hi, Render.roundHalfEven]
+  have h0 := t0 ((2 * (N0 : Int)) / 2) (by omega)
+  have h1 := t0 ((2 * (N1 : Int)) / 2) (by omega)
+  refine ⟨?_, ?_, ?_, ?_⟩ <;> (try rw [h0]) <;> (try rw [h1]) <;> omega
+
+/-- … and for a box that fits (`os ≤ N/2`) its lower edge is the model's `boxLo` -/
+theorem repo_pixel_box_lo (N os : Nat) (h : os ≤ N / 2) : Gen.pix_x_os_lo N N os = ((boxLo N os : Nat) : Int) := by
+  rw [(repo_pixel_box N N os).1]
+  unfold boxLo
+  omega
+
 end Pysersic.Props.C20
